@@ -34,7 +34,7 @@ def c14_1(ctx):
         if isinstance(t, ast.Compare) and len(t.ops) == 1 and isinstance(t.ops[0], (ast.Eq, ast.NotEq)):
             lo, ro = origins(fn, node.id, t.left), origins(fn, node.id, t.comparators[0])
             for a, b in ((lo, ro), (ro, lo)):
-                if "call:sha256" in a and "op:BitAnd" in b and "call:sha256" not in b:
+                if "call:sha256" in a and "call:sha256" not in b and any(x in b for x in ("op:BitAnd", "call:divmod", "op:Mod")):
                     return BAD_TRUE if isinstance(t.ops[0], ast.NotEq) else BAD_FALSE
         return None
     out.append(rl.guard(ctx, spec, match, what="checksum bits must equal the leading bits of sha256(entropy)", key="checksum"))
